@@ -1,9 +1,15 @@
 package worlds
 
 import (
+	"crypto/ed25519"
+	crand "crypto/rand"
+	"crypto/tls"
+	"crypto/x509"
+	"crypto/x509/pkix"
 	"encoding/base64"
 	"errors"
 	"fmt"
+	"math/big"
 	"sort"
 	"strings"
 	"time"
@@ -342,6 +348,71 @@ func nickRun(e *Env) {
 // ---------------------------------------------------------------------------
 // C18: registration and keep-alive follow the protocol
 
+// peer is the server's view of one connection in W-reg: plaintext straight on
+// the simulated link, or through a real crypto/tls server behind it.
+type peer struct {
+	e     *Env
+	l     *simnet.Link
+	tc    *tls.Conn
+	lines []string
+	pos   int
+	eof   bool
+	hsErr error
+	hsOK  bool
+}
+
+func (p *peer) send(line string) {
+	if p.tc != nil {
+		p.tc.Write([]byte(line + "\r\n"))
+		return
+	}
+	p.l.SendLine(line)
+}
+
+// recvFor returns the next client line within d of simulated time.
+func (p *peer) recvFor(d time.Duration) (string, bool) {
+	if p.tc == nil {
+		ln, ok := p.l.RecvLineFor(d)
+		return strings.TrimRight(ln, "\r\n"), ok
+	}
+	if p.pos >= len(p.lines) && !p.eof {
+		simrt.BlockFor("reg.peer", "decrypted client line", d, func() bool { return p.pos < len(p.lines) || p.eof })
+	}
+	if p.pos < len(p.lines) {
+		p.pos++
+		return p.lines[p.pos-1], true
+	}
+	return "", false
+}
+
+func (p *peer) hangup() {
+	if p.tc != nil {
+		p.l.CloseByServer()
+		return
+	}
+	p.l.CloseByServer()
+}
+
+var tlsCertCache *tls.Certificate
+
+func simTLSConfig() *tls.Config {
+	if tlsCertCache == nil {
+		pub, priv, err := ed25519.GenerateKey(crand.Reader)
+		if err != nil {
+			panic(err)
+		}
+		tmpl := &x509.Certificate{SerialNumber: big.NewInt(1), Subject: pkix.Name{CommonName: "irc.sim"},
+			NotBefore: time.Unix(0, 0), NotAfter: time.Date(2100, 1, 1, 0, 0, 0, 0, time.UTC), KeyUsage: x509.KeyUsageDigitalSignature,
+			ExtKeyUsage: []x509.ExtKeyUsage{x509.ExtKeyUsageServerAuth}}
+		der, err := x509.CreateCertificate(crand.Reader, tmpl, tmpl, pub, priv)
+		if err != nil {
+			panic(err)
+		}
+		tlsCertCache = &tls.Certificate{Certificate: [][]byte{der}, PrivateKey: priv}
+	}
+	return &tls.Config{Certificates: []tls.Certificate{*tlsCertCache}, MinVersion: tls.VersionTLS13}
+}
+
 func regRun(e *Env) {
 	g := G{e.S}
 	nick := g.Str(alnum[:52], 1, 9)
@@ -349,7 +420,8 @@ func regRun(e *Env) {
 	name := []string{"", "Real Name", "x", "name with : colon"}[g.Intn(4)]
 	pass := []string{"", "", "secret", "p:w", "with space"}[g.Intn(5)]
 	capNeg := g.Pct(30)
-	ssl := g.Pct(20)
+	sslMode := g.W(7, 1, 2) // 0 plain, 1 SSL with nothing behind the socket (handshake fails), 2 SSL with a real TLS server
+	ssl := sslMode != 0
 	servers := []string{"irc.sim", "irc.sim:7000", "irc.sim:6667", "[::1]", "[::1]:6697", "[2001:db8::1]:9999", "10.0.0.1", "10.0.0.1:1"}
 	server := servers[g.Intn(len(servers))]
 	pingFreq := []time.Duration{-time.Second, 0, 0, 20 * time.Second, 3 * time.Minute, 45 * time.Second}[g.Intn(6)]
@@ -365,12 +437,16 @@ func regRun(e *Env) {
 		}
 		wantAddr = server + ":" + port
 	}
-	e.Notef("nick=%q ident=%q name=%q pass=%v capneg=%v ssl=%v server=%q ping=%v track=%v", nick, ident, name, pass != "", capNeg, ssl, server, pingFreq, track)
+	e.Notef("nick=%q ident=%q name=%q pass=%v capneg=%v ssl=%s server=%q ping=%v track=%v", nick, ident, name, pass != "", capNeg,
+		[]string{"off", "on, handshake fails", "on, real TLS server"}[sslMode], server, pingFreq, track)
 
 	cfg := client.NewConfig(nick, ident, name)
 	cfg.Pass = pass
 	cfg.EnableCapabilityNegotiation = capNeg
 	cfg.SSL = ssl
+	if sslMode == 2 {
+		cfg.SSLConfig = &tls.Config{InsecureSkipVerify: true}
+	}
 	cfg.Server = server
 	cfg.PingFreq = pingFreq
 	cfg.Flood = g.Bool()
@@ -397,28 +473,61 @@ func regRun(e *Env) {
 	type tokT struct{ send, want string }
 	toks := []tokT{{":tok", "tok"}, {":with space", "with space"}, {"plain", "plain"}, {":", ""}, {"::colon", ":colon"}, {":a :b", "a :b"},
 		{":" + strings.Repeat("L", 480), strings.Repeat("L", 480)}, {":12345", "12345"}}
-	e.LinkPlan = func(l *simnet.Link) { l.ChunkMode = g.Intn(4) }
-	var l *simnet.Link
+	e.LinkPlan = func(l *simnet.Link) {
+		l.ChunkMode = g.Intn(4)
+		l.Opaque = sslMode == 2
+	}
+	var p *peer
 	var got []string // client lines of the current connection
 	connNo := 0
-	phase := ""
 	recvAll := func(d time.Duration) {
 		for {
-			ln, ok := l.RecvLineFor(d)
+			ln, ok := p.recvFor(d)
 			if !ok {
 				return
 			}
-			got = append(got, strings.TrimRight(ln, "\r\n"))
+			got = append(got, ln)
 		}
 	}
 	e.OnDial = func(nl *simnet.Link) {
-		l = nl
 		got = nil
 		connNo++
-		if ssl {
+		p = &peer{e: e, l: nl}
+		switch sslMode {
+		case 1:
 			// no TLS server behind the simulated socket: the handshake fails and
 			// Connect must return the error; the dial address rule still shows
 			nl.CloseByServer()
+		case 2:
+			pp := p
+			pp.tc = tls.Server(&simnet.ServerConn{L: nl}, simTLSConfig())
+			e.S.Count("probe.tls-server-behind-the-socket")
+			e.S.Spawn(fmt.Sprintf("tls-server%d", connNo), func() {
+				if err := pp.tc.Handshake(); err != nil {
+					pp.hsErr = err
+					pp.eof = true
+					return
+				}
+				pp.hsOK = true
+				buf := make([]byte, 0, 4096)
+				tmp := make([]byte, 2048)
+				for {
+					n, err := pp.tc.Read(tmp)
+					buf = append(buf, tmp[:n]...)
+					for {
+						i := strings.IndexByte(string(buf), '\n')
+						if i < 0 {
+							break
+						}
+						pp.lines = append(pp.lines, strings.TrimRight(string(buf[:i]), "\r"))
+						buf = buf[i+1:]
+					}
+					if err != nil {
+						pp.eof = true
+						return
+					}
+				}
+			})
 		}
 	}
 	for conn := 1; conn <= nConns && !e.S.Failed(); conn++ {
@@ -428,29 +537,28 @@ func regRun(e *Env) {
 			e.Violation("dial", "Connect #%d dialled %d times", conn, len(e.Dials)-conn+1)
 			return
 		}
-		if wantAddr != "" && e.Dials[conn-1] != wantAddr {
+		if e.Dials[conn-1] != wantAddr {
 			e.Violation("dial-address", "configured server %q (ssl=%v): dialled %q, want %q", server, ssl, e.Dials[conn-1], wantAddr)
 			return
 		}
-		if ssl {
+		if sslMode == 1 {
 			if err == nil {
 				e.Violation("ssl-handshake", "Connect returned nil although the TLS handshake cannot have succeeded")
 			}
 			return
 		}
 		if err != nil {
-			e.Violation("harness-connect", "Connect: %v", err)
+			e.Violation("harness-connect", "Connect: %v (tls handshake error on the server side: %v)", err, p.hsErr)
 			return
 		}
-		// registration lines: read until USER, then a little longer for strays
-		phase = "registration"
+		// registration lines: read until USER
 		deadline := 5 * time.Minute
 		for {
-			ln, ok := l.RecvLineFor(deadline)
+			ln, ok := p.recvFor(deadline)
 			if !ok {
 				break
 			}
-			got = append(got, strings.TrimRight(ln, "\r\n"))
+			got = append(got, ln)
 			if strings.HasPrefix(ln, "USER ") {
 				break
 			}
@@ -469,35 +577,34 @@ func regRun(e *Env) {
 			return
 		}
 		if capNeg {
-			l.SendLine(":irc.sim CAP * LS :")
+			p.send(":irc.sim CAP * LS :")
 		}
-		l.SendLine(":irc.sim 001 " + curNick + " :Welcome " + curNick + "!" + wantIdent + "@host.sim")
+		p.send(":irc.sim 001 " + curNick + " :Welcome " + curNick + "!" + wantIdent + "@host.sim")
 		if track {
-			l.SendLine(":" + curNick + "!" + wantIdent + "@host.sim JOIN #r")
-			l.SendLine(":irc.sim 353 " + curNick + " = #r :" + curNick + " @op")
+			p.send(":" + curNick + "!" + wantIdent + "@host.sim JOIN #r")
+			p.send(":irc.sim 353 " + curNick + " = #r :" + curNick + " @op")
 		}
 		simrt.Settle(30 * time.Second)
 		recvAll(time.Second)
 		// nothing of the registration is repeated
 		for _, ln := range got[len(wantReg):] {
-			for _, p := range []string{"PASS ", "NICK ", "USER ", "CAP LS"} {
-				if strings.HasPrefix(ln, p) {
-					e.Violation("registration-repeated", "connection %d: %q sent again after registration (%q)", conn, p, got)
+			for _, pf := range []string{"PASS ", "NICK ", "USER ", "CAP LS"} {
+				if strings.HasPrefix(ln, pf) {
+					e.Violation("registration-repeated", "connection %d: %q sent again after registration (%q)", conn, pf, got)
 					return
 				}
 			}
 		}
 		// server PINGs, interleaved with other traffic, answered in order
-		phase = "pings"
 		before := len(got)
 		var wantPongs []string
 		np := g.S.Choose(6)
 		for k := 0; k < np; k++ {
 			t := toks[g.S.Choose(len(toks))]
-			l.SendLine("PING " + t.send)
+			p.send("PING " + t.send)
 			wantPongs = append(wantPongs, "PONG :"+t.want)
 			if g.S.Choose(2) == 0 {
-				l.SendLine(":op!o@h PRIVMSG " + curNick + " :noise")
+				p.send(":op!o@h PRIVMSG " + curNick + " :noise")
 			}
 		}
 		simrt.Settle(time.Duration(np)*7*time.Second + 20*time.Second)
@@ -514,7 +621,6 @@ func regRun(e *Env) {
 			return
 		}
 		// own PINGs over an idle stretch
-		phase = "idle"
 		before = len(got)
 		D := []time.Duration{time.Minute, 10 * time.Minute, 37 * time.Minute}[g.S.Choose(3)]
 		t0 := e.S.Now()
@@ -545,24 +651,23 @@ func regRun(e *Env) {
 		}
 		// the nick changes before the next connection (server-forced or by the client)
 		if conn < nConns {
-			phase = "rename"
 			neu := fmt.Sprintf("%s%d", nick, conn)
 			if g.S.Choose(2) == 0 {
 				c.Nick(neu)
 				simrt.Settle(10 * time.Second)
 			}
 			e.S.Count("fault.nick-changed-before-reconnect")
-			l.SendLine(":" + curNick + "!" + wantIdent + "@host.sim NICK " + neu)
+			p.send(":" + curNick + "!" + wantIdent + "@host.sim NICK " + neu)
 			curNick = neu
 			simrt.Settle(10 * time.Second)
 			d0 := discs
 			switch g.S.Choose(3) {
 			case 0:
-				l.CloseByServer()
+				p.hangup()
 			case 1:
 				c.Close()
 			default:
-				l.Reset()
+				p.l.Reset()
 			}
 			if !simrt.BlockFor("reg", "disconnect", time.Hour, func() bool { return discs > d0 }) {
 				e.Violation("harness", "no disconnect\n%s", e.S.TaskDump())
@@ -571,7 +676,6 @@ func regRun(e *Env) {
 			simrt.Settle(10 * time.Second)
 		}
 	}
-	_ = phase
 	c.Close()
 }
 
@@ -646,7 +750,9 @@ func capRun(e *Env) {
 	done := false
 	enabled := map[string]bool{}
 	saslStarted, saslAsked, saslEnded := false, false, false
-	fail := func(clause, f string, a ...interface{}) { e.Violation(clause, f+fmt.Sprintf("\nclient lines so far: %s", clipq(got)), a...) }
+	fail := func(clause, f string, a ...interface{}) {
+		e.Violation(clause, f+fmt.Sprintf("\nclient lines so far: %s", clipq(got)), a...)
+	}
 	e.OnDial = func(nl *simnet.Link) {
 		l = nl
 		e.S.Spawn("server", func() {
